@@ -52,6 +52,10 @@ def pipeD (op : String) (args : List Nat) : Option String :=
   | "pipestress" => some <| match args with
       | [_, n, _] => ok [n]
       | _ => reject
+  | "pipewalk" => some <| match args with
+      -- a schedule walk: every walk of the model ends (`pipe_measure` / `pipe_deadlock_free`)
+      | [_, _, _, _, _] => "terminates"
+      | _ => reject
   | "pipeslow" => some <| match args with
       | [_, n, _, _] => ok [n]
       | _ => reject
